@@ -20,6 +20,7 @@ from . import C05
 EXPLANATION = ("Who-may-mutate and guard (control-dependence) queries over the MIR of the connection manager: table mutations are "
                "enumerated from resolved Vec method calls and their index operands traced to the lookup result; accept/reset emission "
                "sites are checked for their guards; public operations are checked for lookup dominance.")
+CONFIGS = ['def', 'alloc', 'def-rel']    # these drivers need the `alloc` feature
 FLOORS = {'table_mutations': 4, 'public_ops': 6}
 MGR = 'device::socket::connectionmanager::VsockConnectionManager'
 VEC = 'alloc::vec::Vec::<T, A>::'
